@@ -136,7 +136,8 @@ func (r *Decoder) scan(ectx evaluationContext, fn scanFunc) (readerStack, error)
 					if errors.Is(err, io.EOF) {
 						r.commit(uncommitted.AsDecodedRunes())
 
-						return r.terminate()
+						// the pending production decides whether the document may end here
+						return fn(r, ectx, r1, err)
 					}
 
 					return readerStack{}, err
